@@ -12,7 +12,7 @@ func init() {
 	register(&PropDef{
 		ID:    "C38",
 		Pkgs:  []string{wrrp, cimpl, "internal/xds/xdsclient"},
-		Claim: "Decides the structural part: the random weighted selector draws uniformly below the total weight and returns the first item whose accumulated weight exceeds the draw (strict), accumulating weights in insertion order; its uniform fast path is enabled only while every added weight equalled its predecessor (the flag stays false once false); configured drops are evaluated only while the child policy is READY; the drop rate per million is computed in 64 bits and capped at one million, so the complement cannot wrap; a started circuit-breaker request is ended on the failing-pick arm or by the Done callback installed on every other path, and a request is started only below the limit.",
+		Claim: "Decides the structural part: the random weighted selector draws uniformly below the total weight and returns the first item whose accumulated weight exceeds the draw (strict), accumulating weights in insertion order; its uniform fast path is enabled only while every added weight equalled its predecessor (the flag stays false once false); configured drops are evaluated only while the child policy is READY; the drop rate per million is computed in 64 bits and capped at one million, so the complement cannot wrap; a started circuit-breaker request is ended on the failing-pick arm or by the Done callback installed on every other path, and a request is started only below the limit. The selector draws only from a non-empty item set and reads the previous item only when one exists.",
 		NotDecided:  []string{"the exact selection probabilities and drop rates (probability over the random source)", "eventual consistency of the circuit-breaker counter under races (allowed to exceed by design)"},
 		Assumptions: []string{"rand.Int64N(n) is uniform on [0,n)"},
 		Technique:   "static analysis: phi-leaf analysis of the stored flag, dominating guards on go/ssa branch facts, symbolic upper bound, must-pass-through pairing",
